@@ -19,15 +19,19 @@ pub fn write(
     let mut thread_list = MemoryArrayWriter::<MDRawThreadName>::alloc_array(buffer, num_threads)?;
     dirent.location.data_size += thread_list.location().data_size;
 
-    for (idx, item) in dumper.threads.iter().enumerate() {
-        if let Some(name) = &item.name {
-            let pos = write_string_to_location(buffer, name)?;
-            let thread = MDRawThreadName {
-                thread_id: item.tid.try_into()?,
-                thread_name_rva: pos.rva.into(),
-            };
-            thread_list.set_value_at(buffer, thread, idx)?;
-        }
+    // Only threads with a name get an entry, so the index into the list is not
+    // the index of the thread
+    let named_threads = dumper
+        .threads
+        .iter()
+        .filter_map(|t| t.name.as_ref().map(|name| (t.tid, name)));
+    for (idx, (tid, name)) in named_threads.enumerate() {
+        let pos = write_string_to_location(buffer, name)?;
+        let thread = MDRawThreadName {
+            thread_id: tid.try_into()?,
+            thread_name_rva: pos.rva.into(),
+        };
+        thread_list.set_value_at(buffer, thread, idx)?;
     }
     Ok(dirent)
 }
